@@ -335,6 +335,7 @@ prop("C17", bounds=PQ_BOUNDS, outside=PQ_OUT,
          H("pq.VerifQueueFull", "counters on a full file and after draining", "3 sizes"),
          H("pq.VerifQueueChunks", "Flushed callback and counters when Write itself flushes completed events (multi-page event in large chunks)", "3 first sizes x chunkings"),
          H("pq.VerifQueueMisuse", "a rejected ACK (more than pending) leaves Pending / Active unchanged", "11 cases"),
+         H("pq.VerifQueueEmptyEvent", "a zero-length event (Next without Write) among ordinary events: Available / Pending / Active stay exact, the following events are delivered", "3 positions of the empty event"),
          H("pq.VerifQueueFault", "a flush / ACK whose transaction fails (injected write/sync failure, i.e. after the pages were allocated): error, the buffered events are kept and flushed by the retry, nothing lost or duplicated, counters exact",
            "2 sizes x 2 kinds x 3 ordinals x flush/ACK x reopen", quick={"params": {"nsizes": 2}}, thorough={"params": {"nsizes": 4, "faultords": 5}, "max_paths": 400000, "budget": "1500s"}),
      ])
